@@ -152,3 +152,92 @@ package template
 //@   ensures allowed: isnil(err) ==> policycontent(element) != 0
 //@   ensures atleast: isnil(err) ==> trustge(classof(sc), policycontent(element))
 //@   ensures listed: policycontent(element) != 0 ==> isnil(err)
+
+//@ func (s sanitizationContext) sanitizerName() (r string)
+//@   serves C04 C02 C03
+//@   ensures spec: classof(s) >= 1 ==> sanname(classof(s), r)
+
+//@ func (s sanitizationContext) isEnum() (r bool)
+//@   serves C04
+//@   ensures spec: classof(s) >= 1 ==> r == isenumcls(classof(s))
+
+//@ func (s sanitizationContext) isURLorTrustedResourceURL() (r bool)
+//@   serves C04 C02 C14
+//@   ensures spec: classof(s) >= 1 ==> r == isurlcls(classof(s))
+
+//@ func appendIfNotEmpty(slice []string, strings ...string) (r []string)
+//@   serves C04 C02 C03
+//@   requires len(strings) <= 2
+//@   ensures prefix: len(r) >= len(slice) && forall(k, 0, len(slice), sameview(at(r, k), at(slice, k)))
+//@   ensures count: len(r) == len(slice) + ite(len(strings) >= 1 && len(at(strings, 0)) > 0, 1, 0) + ite(len(strings) >= 2 && len(at(strings, 1)) > 0, 1, 0)
+//@   ensures first: len(strings) >= 1 && len(at(strings, 0)) > 0 ==> sameview(at(r, len(slice)), at(strings, 0))
+//@   ensures second: len(strings) >= 2 && len(at(strings, 1)) > 0 ==> sameview(at(r, len(r) - 1), at(strings, 1))
+//@   loop 1
+//@     invariant len(slice) >= len(old(slice)) && forall(k, 0, len(old(slice)), sameview(at(slice, k), at(old(slice), k)))
+//@     invariant len(slice) == len(old(slice)) + ite(rangeidx >= 1 && len(at(strings, 0)) > 0, 1, 0) + ite(rangeidx >= 2 && len(at(strings, 1)) > 0, 1, 0)
+//@     invariant rangeidx >= 1 && len(at(strings, 0)) > 0 ==> sameview(at(slice, len(old(slice))), at(strings, 0))
+//@     invariant rangeidx >= 2 && len(at(strings, 1)) > 0 ==> sameview(at(slice, len(slice) - 1), at(strings, 1))
+
+//@ func reverse(s []string) (r []string)
+//@   serves C04 C02 C03
+//@   ensures length: len(r) == len(s)
+//@   ensures mirrored: forall(k, 0, len(s), sameview(at(r, k), at(s, len(s) - 1 - k)))
+//@   loop 1
+//@     invariant 0 <= head && head + tail == len(s) - 1 && len(s) == len(old(s)) && head <= tail + 1
+//@     invariant forall(k, 0, head, sameview(at(s, k), at(old(s), len(s) - 1 - k)))
+//@     invariant forall(k, tail + 1, len(s), sameview(at(s, k), at(old(s), len(s) - 1 - k)))
+//@     invariant forall(k, head, tail + 1, sameview(at(s, k), at(old(s), k)))
+//@     decreases tail - head + 1
+
+//@ func sanitizerForElementContent(c context) (r string, err error)
+//@   serves C04 C02 C03
+//@   ensures listed: isnil(err) ==> forall(k, 0, len(ite(len(c.element.names) == 0, single(c.element.name), c.element.names)), contentmin(at(ite(len(c.element.names) == 0, single(c.element.name), c.element.names), k)) != 0)
+//@   ensures atleast: isnil(err) ==> forall(k, 0, len(ite(len(c.element.names) == 0, single(c.element.name), c.element.names)), trustge(clsofname(r), contentmin(at(ite(len(c.element.names) == 0, single(c.element.name), c.element.names), k))))
+//@   loop 1
+//@     invariant len(elems) >= 1
+//@     invariant i > 0 ==> classof(sc0) >= 1
+//@     invariant forall(k, 0, i, contentmin(at(elems, k)) != 0 && trustge(classof(sc0), contentmin(at(elems, k))))
+
+//@ func validateDoesNotEndsWithCharRefPrefix(prefix string) (err error)
+//@   serves C14 C02 C04
+//@   ensures spec: isnil(err) == !inlang(re_endsWithCharRefPrefixPattern, prefix)
+
+//@ func decodeURLPrefix(prefix string) (r string, err error)
+//@   serves C14 C02
+//@   ensures spec: isnil(err) == decodeok(prefix)
+//@   ensures decoded: isnil(err) ==> seqeq(r, unesc(prefix))
+
+//@ func validateURLPrefix(prefix string) (err error)
+//@   serves C14 C02
+//@   option uses C11.innocuous_accepted
+//@   ensures spec: isnil(err) == urlprefixok(prefix)
+
+//@ func validateTrustedResourceURLPrefix(prefix string) (err error)
+//@   serves C14 C02
+//@   ensures spec: isnil(err) == truprefixok(prefix)
+
+//@ func validateTrustedResourceURLSubstitution(args ...interface{}) (r string, err error)
+//@   serves C14 C13 C02
+//@   ensures spec: len(args) == 1 && tag(at(args, 0)) == 1 ==> isnil(err) == !inlang(re_urlDoubleDotSegmentPattern, contents(at(args, 0)))
+//@   ensures same: len(args) == 1 && tag(at(args, 0)) == 1 && isnil(err) ==> sameview(r, contents(at(args, 0)))
+
+//@ func sanitizersForAttributeValue(c context) (r []string, err error)
+//@   serves C04 C02 C03 C14
+//@   ensures policy: isnil(err) ==> forall(ii, 0, len(ite(len(c.element.names) == 0, single(c.element.name), c.element.names)), forall(jj, 0, len(ite(len(c.attr.names) == 0, single(c.attr.name), c.attr.names)), pairok(at(ite(len(c.element.names) == 0, single(c.element.name), c.element.names), ii), at(ite(len(c.attr.names) == 0, single(c.attr.name), c.attr.names), jj), fields(c.linkRel), r, c.attr.value, c.attr.ambiguousValue)))
+//@   loop 1
+//@     invariant len(elems) >= 1 && len(attrs) >= 1
+//@     invariant i > 0 ==> classof(sc0) >= 1
+//@     invariant forall(ii, 0, i, forall(jj, 0, len(attrs), policyattr(at(elems, ii), at(attrs, jj), fields(c.linkRel)) != 0 && trustge(classof(sc0), policyattr(at(elems, ii), at(attrs, jj), fields(c.linkRel)))))
+//@   loop 2
+//@     invariant (i > 0 || j > 0) ==> classof(sc0) >= 1
+//@     invariant forall(ii, 0, i, forall(jj, 0, len(attrs), policyattr(at(elems, ii), at(attrs, jj), fields(c.linkRel)) != 0 && trustge(classof(sc0), policyattr(at(elems, ii), at(attrs, jj), fields(c.linkRel)))))
+//@     invariant forall(jj, 0, j, policyattr(at(elems, i), at(attrs, jj), fields(c.linkRel)) != 0 && trustge(classof(sc0), policyattr(at(elems, i), at(attrs, jj), fields(c.linkRel))))
+
+//@ func sanitizerForContext(c context) (r []string, err error)
+//@   serves C04 C02 C03 C01
+//@   ensures names: c.state == stateTag || c.state == stateAttrName || c.state == stateAfterName ==> !isnil(err)
+//@   ensures comment: c.state == stateHTMLCmt ==> isnil(err) && len(r) == 1 && at(r, 0) == "_sanitizeHTMLComment"
+//@   ensures toptext: c.state == stateText && len(c.element.names) == 0 && len(c.element.name) == 0 ==> isnil(err) && len(r) == 1 && at(r, 0) == "_sanitizeHTML"
+//@   ensures unquoted: c.state != stateTag && c.state != stateAttrName && c.state != stateAfterName && c.state != stateHTMLCmt && !(c.state == stateText && len(c.element.names) == 0 && len(c.element.name) == 0) && (len(c.attr.name) > 0 || len(c.attr.names) > 0) && c.delim != delimDoubleQuote && c.delim != delimSingleQuote ==> !isnil(err)
+//@   ensures attr: c.state != stateTag && c.state != stateAttrName && c.state != stateAfterName && c.state != stateHTMLCmt && !(c.state == stateText && len(c.element.names) == 0 && len(c.element.name) == 0) && (len(c.attr.name) > 0 || len(c.attr.names) > 0) && isnil(err) ==> forall(ii, 0, len(ite(len(c.element.names) == 0, single(c.element.name), c.element.names)), forall(jj, 0, len(ite(len(c.attr.names) == 0, single(c.attr.name), c.attr.names)), pairok(at(ite(len(c.element.names) == 0, single(c.element.name), c.element.names), ii), at(ite(len(c.attr.names) == 0, single(c.attr.name), c.attr.names), jj), fields(c.linkRel), r, c.attr.value, c.attr.ambiguousValue)))
+//@   ensures content: c.state != stateTag && c.state != stateAttrName && c.state != stateAfterName && c.state != stateHTMLCmt && !(c.state == stateText && len(c.element.names) == 0 && len(c.element.name) == 0) && len(c.attr.name) == 0 && len(c.attr.names) == 0 && isnil(err) ==> len(r) <= 1 && forall(k, 0, len(ite(len(c.element.names) == 0, single(c.element.name), c.element.names)), contentmin(at(ite(len(c.element.names) == 0, single(c.element.name), c.element.names), k)) != 0 && ite(len(r) == 1, trustge(clsofname(at(r, 0)), contentmin(at(ite(len(c.element.names) == 0, single(c.element.name), c.element.names), k))), trustge(cls_None(), contentmin(at(ite(len(c.element.names) == 0, single(c.element.name), c.element.names), k)))))
